@@ -80,6 +80,15 @@ func HistCheckFor(prop string) (HistCheck, bool) {
 	default:
 		return hc, false
 	}
+	if longEvery == 150 {
+		// thorough tier: about one history in 3000 starts from a chain around the production
+		// prune depth / automatic-clean interval of 10000 headers (each costs minutes of CPU)
+		switch prop {
+		case "C01", "C09", "C10", "C11", "C12":
+			g.BaseLens = withEpochs(g.BaseLens, 3000, []int{9996, 10003, 11000, 20001})
+			hc.Rule += "; thorough tier: ~1 history in 3000 starts from a 9996/10003/11000/20001-header chain (production prune depth, automatic clean every 10000 heights)"
+		}
+	}
 	hc.Gen = g
 	return hc, true
 }
@@ -137,4 +146,14 @@ func longBases(short []int, every int, long []int) []int {
 		out = append(out, short...)
 	}
 	return append(out, long...)
+}
+
+// withEpochs repeats the base list so that about one history in `every` gets one of the epoch
+// bases (chains around the 10000-header prune depth).
+func withEpochs(bases []int, every int, epochs []int) []int {
+	var out []int
+	for len(out) < every*len(epochs) {
+		out = append(out, bases...)
+	}
+	return append(out, epochs...)
 }
